@@ -63,6 +63,12 @@ CLAIMED = {
                      "Partial: that each subscriber receives what it would have received alone is not proved as a bisimulation; it is decided on the implementation: every generated pipeline (C02-C04 operators, "
                      "cold per-attempt scripts, hot subjects, retry/retry_when) is subscribed 2-3 times to ONE Observable value - sequentially, nested from inside a callback, interleaved mid-stream, through retry - and "
                      "each subscriber's log must equal its log in the solitary scenario."),
+    "C17": dict(engine="coq-seq", design="DESIGN.md 6 C17",
+                technique="machine-checked proof in Coq (slot-emptiness lemmas on the worklist machine, the frozen invariant for every continuation, the node-level teardown theorem for the whole catalogue) + reference-counted tokens in every callback, operator closure and item on the implementation",
+                text="Theorems C17_terminal_empties_the_slots / C17_unsubscribe_empties_the_slots / C17_slots_stay_empty / C17_upstream_slots_empty: a terminal that passes the gate and Observer::unsubscribe empty all callback "
+                     "slots (unsubscribe also the teardown slot); for every pipeline and every continuation the subscriber's slots stay empty; every upstream observer of an ended controller is unsubscribed and its map is empty "
+                     "(whole catalogue). Partial: that empty slots mean dropped closures and items is Rust's ownership (trusted meta-argument), and the propagation through a whole pipeline tree is checked on the model's final world "
+                     "(closure_ok), not proved globally. Tie: tokens captured in every user callback, operator closure and item must all be released after the subscription ended in each of the three ways and the handles were dropped."),
     "C18": dict(engine="coq-conc", design="DESIGN.md 6 C18",
                 technique="machine-checked proof in Coq (invariant + bounded-progress lemma of a poller/source transition system over all interleavings) + correspondence under a deterministic scheduling runtime (result and poll count within the model's exhaustively explored outcome set)",
                 text="Theorems C18_result / C18_no_lost_wakeup / C18_eventually_ready: in the to_vec model (waker lock held across the done test and the store; done set before the waker is read) every interleaving, "
